@@ -166,7 +166,7 @@ fn run_script(queries: &Value, script: &[(String, usize)], flush_rest: bool) -> 
     let src = Source(Arc::new(Mutex::new(SrcState {
         evlog: None,
         hist: vec![Version { session: 1, serial: 5, data: vec![(0, "o4".into(), 0), (0, "o6".into(), 0), (1, "k1".into(), 0), (2, "c1".into(), 2)] }],
-        timing: 1, window: 1, serial_base: 0, calls: 0, pending: vec![], ready: true,
+        timing: 1, window: 1, serial_base: 0, calls: 0, pending: vec![], ready: true, cut_at: None, dead: Default::default(),
     })));
     let wire = Arc::new(Mutex::new(Wire::default()));
     let rt = tokio::runtime::Builder::new_current_thread().enable_time().start_paused(true).build().unwrap();
